@@ -145,9 +145,16 @@ def do_insert(doc, o: dict) -> dict:
     from odfdo import Document
 
     obs: dict = {}
-    st = make_style(o["family"], o["name"])
+    # the name is carried by the style itself or ("set on the fly") by the name argument, the style then having
+    # no name of its own or another one; "via" is chosen by the caller of do_insert (recorded in the event)
+    via = o.get("via", "own")
     try:
-        ret = doc.insert_style(st, automatic=o["automatic"], default=o["default"])
+        if via == "own" or not o["name"] or o["family"] == "font-face":
+            st = make_style(o["family"], o["name"])
+            ret = doc.insert_style(st, automatic=o["automatic"], default=o["default"])
+        else:
+            st = make_style(o["family"], "" if via == "arg" else "previous name")
+            ret = doc.insert_style(st, name=o["name"], automatic=o["automatic"], default=o["default"])
         obs["ret"] = ret if ret is not None else ""
         obs["ret_ai"] = auto_index(obs["ret"])
         found = doc.get_style(o["family"], obs["ret"] if obs["ret"] else None)
